@@ -1437,7 +1437,7 @@ class C20(core.Check):
         "table (T_C20_guards_table*); evaluating the regenerated guards on the arguments of a call is proved to give the "
         "outcome of the model's `run`, class included, for every entry point (T_C20_guards_translated_*; "
         "none partial). Still checked, not proved: the rejections that "
-        "come from implicit checks below / between the guards (dict and list look-ups, numpy shape and division, NaN "
+        "come from implicit checks below / between the guards that are not subscripts on a literal list / dict of the class (those are translated: T_C20_guards_implicit_*) — module-level and nested look-ups, numpy shape and division, NaN "
         "refused by scipy — spelled out in each theorem as the model's own checks), the meaning of the named atoms "
         "(`self.outer_radius`, `self.is_assembled`, `isinstance(…, Disk)`, `len(np.shape(points))`) and python's "
         "evaluation of the translated syntax: probe table + differential correspondence (the regenerated guards are "
